@@ -223,7 +223,7 @@ func solveAll(vcs []*FuncVC, opts SolveOpts, withCovers bool) {
 				if r.Status == "sat" {
 					j.o.Model = parseModel(r.Output, qs)
 				}
-				if r.Status == "unsat" {
+				if r.Status == "unsat" && os.Getenv("GOVC_KEEP") == "" {
 					os.Remove(file)
 				}
 			}
